@@ -57,6 +57,13 @@ Fixpoint glob (pat : str) : str -> bool :=
         fun s => match s with [] => false | d :: s' => N.eqb c d && glob pat' s' end
   end.
 
+(* declarative reading of a name pattern: the star stands for any (possibly
+   empty) string, every other character for itself *)
+Inductive gmatch : str -> str -> Prop :=
+| gm_nil : gmatch [] []
+| gm_star : forall pat s1 s2, gmatch pat s2 -> gmatch (ch_star :: pat) (s1 ++ s2)
+| gm_char : forall c pat s, c <> ch_star -> gmatch pat s -> gmatch (c :: pat) (c :: s).
+
 (* LocationStep name test: the star alone, a pattern containing a star, or an exact name *)
 Definition test_match (t nm : str) : bool :=
   if str_eqb t star then true
@@ -193,7 +200,8 @@ Fixpoint drop_self (p : path) : path :=
   match p with
   | PNil => PNil
   | PCons dsl a t pr rest =>
-      if trivial_self a t pr then drop_self rest else PCons dsl a t pr (drop_self rest)
+      (* after [expand] no step carries the '//' flag any more *)
+      if trivial_self a t pr && negb dsl then drop_self rest else PCons dsl a t pr (drop_self rest)
   end.
 
 Definition fusable (a : axis) (t : str) (pr : pred) : bool :=
@@ -205,7 +213,7 @@ Fixpoint fuse (p : path) : path :=
   | PCons dsl a t pr rest =>
       match rest with
       | PCons dsl2 AChild t2 pr2 rest2 =>
-          if fusable a t pr then PCons dsl2 ADesc t2 pr2 (fuse rest2)
+          if fusable a t pr then PCons false ADesc t2 pr2 (fuse rest2)
           else PCons dsl a t pr (fuse rest)
       | _ => PCons dsl a t pr (fuse rest)
       end
@@ -361,12 +369,13 @@ Definition step_fwd (a : axis) (t : str) (pr : pred) (ns : list node)
 
 (* LocationPath.__findIntermediateNodes.
        def traverse(node, stack):
-           if node in visited: return
+           if node in visited:
+               if (node in new) or (node in intermediate): intermediate.update(stack)
+               return
            if node in new: intermediate.update(stack)
-           else:
-               stack = stack + [node]
-               for i in node.values(): if queryIndirect or i.direct: traverse(i.node, stack)
-               visited.add(node)
+           stack = stack + [node]
+           for i in node.values(): if queryIndirect or i.direct: traverse(i.node, stack)
+           visited.add(node)
    state = (visited, intermediate).  Fuel: the depth of the recursion is
    bounded by the number of nodes (edges go to larger numbers). *)
 Fixpoint traverse (ind : bool) (new : list node) (fuel : nat) (n : node) (stack : list node)
@@ -374,12 +383,12 @@ Fixpoint traverse (ind : bool) (new : list node) (fuel : nat) (n : node) (stack 
   match fuel with
   | 0 => st
   | S f =>
-      let '(visited, im) := st in
-      if memb n visited then st
-      else if memb n new then (visited, union im stack)
+      if memb n (fst st) then
+        (if memb n new || memb n (snd st) then (fst st, union (snd st) stack) else st)
       else
+        let im1 := if memb n new then union (snd st) stack else snd st in
         let st' := fold_left (fun s c => traverse ind new f c (stack ++ [n]) s)
-                             (kids_f g ind n) st in
+                             (kids_f g ind n) (fst st, im1) in
         (n :: fst st', snd st')
   end.
 
@@ -590,3 +599,13 @@ Definition wf_graph (g : graph) : Prop :=
 Definition wf_graphb (g : graph) : bool :=
   Nat.ltb 0 (length g) &&
   forallb (fun n => forallb (fun e => Nat.ltb n (fst e) && Nat.ltb (fst e) (length g)) (kids g n)) (nodes g).
+
+(* a query that uses neither wildcards nor predicates nor multi-hop axes *)
+Definition simple_axis (a : axis) : bool :=
+  match a with AChild | ADChild | ASelf => true | _ => false end.
+Fixpoint simple_path (q : path) : bool :=
+  match q with
+  | PNil => true
+  | PCons dsl a t pr rest =>
+      negb dsl && simple_axis a && negb (mem_N ch_star t) && is_pnone pr && simple_path rest
+  end.
